@@ -41,7 +41,7 @@ TNext == \/ Is("start") /\ TestsStarted(E.ri) /\ ObsOK(out', NoF)
          \/ Is("endgroup") /\ GroupEnded /\ ObsOK(out', NoF)
          \/ Is("end") /\ TestsEnded /\ ObsOK(out', NoF)
 \* executions are concatenated with reset lines (fresh registry, reporter and result)
-TReset == Is("reset") /\ phase' = "idle" /\ runIgn' = FALSE /\ grp' = <<>> /\ tst' = NoTest /\ out' = <<>>
+TReset == Is("reset") /\ phase' = "idle" /\ runIgn' = FALSE /\ grp' = NoGroup /\ tst' = NoTest /\ out' = <<>>
           /\ scan' = [stack |-> <<>>, ok |-> TRUE]
           /\ cnt' = [g |-> 0, t |-> 0, f |-> 0, p |-> 0]
 TSpec == TInit /\ [][TNext \/ TReset]_tvars
